@@ -46,7 +46,9 @@ pub fn literal<'a>() -> impl Parser<'a, &'a str, Literal, Err<'a>> + Clone {
     recursive(|literal| {
         let int = just("-")
             .or_not()
-            .then(text::int(10).from_str::<u64>().unwrapped())
+            .then(text::int(10).from_str::<u64>().try_map(|number, span| {
+                number.map_err(|_| Rich::custom(span, "number is out of range"))
+            }))
             .map(|(sign, val)| {
                 Literal::Int(if sign.is_some() {
                     -(val as i64)
@@ -158,7 +160,11 @@ pub fn parser<'a>() -> impl Parser<'a, &'a str, Dqe, Err<'a>> {
         let mb_usize = text::int(10)
             .or_not()
             .padded()
-            .map(|v: Option<&str>| v.map(|v| v.parse::<usize>().unwrap()));
+            .try_map(|v: Option<&str>, span| {
+                v.map(|v| v.parse::<usize>())
+                    .transpose()
+                    .map_err(|_| Rich::custom(span, "number is out of range"))
+            });
 
         let slice_op = mb_usize
             .then_ignore(just("..").padded())
